@@ -181,9 +181,6 @@ func (r *Run) Finish() int {
 	// floors: per configuration
 	perCfg := map[string]map[string]int{}
 	for _, o := range r.Obls {
-		if o.Status == Info {
-			continue
-		}
 		if perCfg[o.Config] == nil {
 			perCfg[o.Config] = map[string]int{}
 		}
